@@ -43,7 +43,10 @@ func (r *Replayer) Replay(process func(record []byte) error) (err error) {
 		}
 	}()
 
-	for _, path := range walFiles {
+	for i, path := range walFiles {
+		// a crash can cut the newest file anywhere, even inside its header: a torn record at its tail is the end of the log
+		tornTailIsEnd := i == len(walFiles)-1
+
 		reader, err := r.walOptions.readerFactory(path)
 		if err != nil {
 			return fmt.Errorf("error while creating WAL reader under '%s': %w", path, err)
@@ -52,6 +55,9 @@ func (r *Replayer) Replay(process func(record []byte) error) (err error) {
 
 		err = reader.Open()
 		if err != nil {
+			if tornTailIsEnd && (errors.Is(err, io.EOF) || errors.Is(err, io.ErrUnexpectedEOF)) {
+				break
+			}
 			return fmt.Errorf("error while opening WAL reader under '%s': %w", path, err)
 		}
 
@@ -59,6 +65,10 @@ func (r *Replayer) Replay(process func(record []byte) error) (err error) {
 			bytes, err := reader.ReadNext()
 			// io.EOF signals that no records are left to be read
 			if errors.Is(err, io.EOF) {
+				break
+			}
+
+			if tornTailIsEnd && errors.Is(err, io.ErrUnexpectedEOF) {
 				break
 			}
 
